@@ -119,6 +119,18 @@ impl<'a> G<'a> {
                 }
                 11 => {
                     if self.cfg.failing_ops {
+                        if !self.ints.is_empty() && self.p.chance(1, 2) {
+                            // division guarded by a value-position `if` (only the selected branch
+                            // may be evaluated)
+                            let v = self.ints[self.p.usize(self.ints.len())].clone();
+                            let n = self.ints[self.p.usize(self.ints.len())].clone();
+                            let k = self.p.range(0, 5);
+                            return if self.p.chance(1, 2) {
+                                format!("(if ({v} == 0) {{ {k} }} else {{ ({n} / {v}) }})")
+                            } else {
+                                format!("(if ({v} != 0) {{ ({n} / {v}) }} else {{ {k} }})")
+                            };
+                        }
                         let a = self.int(d - 1);
                         let b = self.int(d - 1);
                         return format!("({a} / {b})");
